@@ -44,6 +44,9 @@ type colT struct {
 	name string
 	typ  ctype
 	null bool // may hold "" although typ is not tStr/tMix
+	// inexact: values may carry 16-digit rounding (derived from an average),
+	// so a total/average over them would depend on the order of addition
+	inexact bool
 }
 
 // mayBeEmpty: the column can hold the empty string.
